@@ -19,18 +19,31 @@ package db
 //@ pred amWF(m UserAccessMap) bool
 //@   is (forall u string :: {u in m} {m[u]} (u in m) ==> m[u] != nil) && (forall a string, b string :: {m[a], m[b]} (a in m) && (b in m) && a != b ==> m[a] != m[b])
 
+// the stored map already says exactly what the sync function output says and has a key for each of its users
+// (the state one updateAccess leaves: [exact] + [keys-cover]); used for "running it again reports nobody" (C18)
+//@ pred amSame(m UserAccessMap, a channels.AccessMap) bool
+//@   is (forall u string, c string :: {c in m[u]} {c in a[u]} amGrants(m, u, c) <==> newGrants(a, u, c)) && (forall u string :: {u in a} {u in m} (u in a) ==> (u in m))
+
 // updateAccess: afterwards the document grants exactly what the sync function output says, pair by pair
 // (user, channel); grants that persist keep their sequence, new grants are stamped with the document's
 // sequence; every user whose grants differ between before and after is reported (a missed name would be a
 // missed invalidation, i.e. a missed revoke or grant).
+//@ props C03 C18
 //@ func UserAccessMap.updateAccess
 //@   safety on
 //@   requires accessMap != nil && doc != nil && amWF(*accessMap)
-//@   modifies *
+//@   modifies *accessMap, elems(*accessMap), elems(channels.TimedSet)
 //@   ensures[exact]    forall u string, c string :: {amGrants(*accessMap, u, c)} amGrants(*accessMap, u, c) <==> newGrants(newAccess, u, c)
 //@   ensures[kept]     forall u string, c string :: {(*accessMap)[u][c]} old(amGrants(*accessMap, u, c)) && newGrants(newAccess, u, c) ==> (*accessMap)[u][c] == old((*accessMap)[u][c])
 //@   ensures[stamped]  forall u string, c string :: {(*accessMap)[u][c]} !old(amGrants(*accessMap, u, c)) && newGrants(newAccess, u, c) ==> (*accessMap)[u][c].Sequence == old(doc.Sequence)
 //@   ensures[changed-complete] forall u string, c string :: {old(c in (*accessMap)[u])} {c in newAccess[u]} old(amGrants(*accessMap, u, c)) != newGrants(newAccess, u, c) ==> elem(changedUsers, u)
+//@   ensures[changed-sound] forall i int :: {changedUsers[i]} 0 <= i && i < len(changedUsers) ==> (exists c string :: {c in newAccess[changedUsers[i]]} {old(c in (*accessMap)[now(changedUsers[i])])} old(amGrants(*accessMap, now(changedUsers[i]), c)) != newGrants(newAccess, changedUsers[i], c)) || (!old(now(changedUsers[i]) in *accessMap) && (changedUsers[i] in *accessMap))
+//@   loop * invariant[ch-sound]  forall i int :: {changedUsers[i]} 0 <= i && i < len(changedUsers) ==> (exists c string :: {c in newAccess[changedUsers[i]]} {old(c in (*accessMap)[now(changedUsers[i])])} old(amGrants(*accessMap, now(changedUsers[i]), c)) != newGrants(newAccess, changedUsers[i], c)) || (!old(now(changedUsers[i]) in *accessMap) && (changedUsers[i] in *accessMap))
+//@   loop * invariant[del-diff]  forall u string :: {old(u in *accessMap)} {u in *accessMap} old(u in *accessMap) && !(u in *accessMap) ==> (exists c string :: {c in newAccess[u]} {old(c in (*accessMap)[u])} old(amGrants(*accessMap, u, c)) != newGrants(newAccess, u, c))
+//@   ensures[keys-cover]  forall u string :: {u in *accessMap} (u in newAccess) ==> (u in *accessMap)
+//@   ensures[idempotent]  old(amSame(*accessMap, newAccess)) ==> len(changedUsers) == 0
+//@   loop * invariant[idem]      old(amSame(*accessMap, newAccess)) ==> len(changedUsers) == 0
+//@   loop 2 invariant[cover]     forall u string :: {u in #visited} (u in #visited) ==> (u in *accessMap)
 //@   loop 1 invariant[same-map]  *accessMap == old(*accessMap) && doc.Sequence == old(doc.Sequence)
 //@   loop 1 invariant[keys]      forall u string :: {u in *accessMap} ((u in *accessMap) ==> old(u in *accessMap)) && (old(u in *accessMap) && !(u in #visited) ==> (u in *accessMap))
 //@   loop 1 invariant[sets]      forall u string :: {(*accessMap)[u]} (u in *accessMap) ==> (*accessMap)[u] == old((*accessMap)[u])
@@ -51,6 +64,7 @@ package db
 
 // ---- the document's channel assignment ----
 
+//@ props C03
 //@ func SyncData.hasFlag
 //@   pure
 
@@ -61,15 +75,21 @@ package db
 // updateChannelHistory only rewrites the document's channel-history lists.
 //@ func Document.updateChannelHistory
 //@   requires doc != nil
-//@   modifies doc.ChannelSet, elems(doc.ChannelSet), doc.ChannelSetHistory, elems(doc.ChannelSetHistory)
+//@   modifies doc.ChannelSet, elems(doc.ChannelSet), doc.ChannelSetHistory, elems(doc.ChannelSetHistory), ChannelSetEntry.Start, ChannelSetEntry.End, ChannelSetEntry.Compacted
+
+// addToChannelSetHistory appends to (and compacts) the document's channel-history list only.
+//@ func Document.addToChannelSetHistory
+//@   requires doc != nil
+//@   modifies doc.ChannelSetHistory, elems(doc.ChannelSetHistory), ChannelSetEntry.Start, ChannelSetEntry.Compacted
 
 // updateChannels(S): afterwards the document's active channels are exactly S; a channel that was active and is
 // not in S gets a removal record stamped with the document's current sequence and revision; channels removed
 // earlier keep their record untouched; no channel entry is dropped.
+//@ props C03 C18
 //@ func Document.updateChannels
 //@   safety on
 //@   requires doc != nil
-//@   modifies doc.Channels, elems(doc.Channels), doc.ChannelSet, elems(doc.ChannelSet), doc.ChannelSetHistory, elems(doc.ChannelSetHistory)
+//@   modifies doc.Channels, elems(doc.Channels), doc.ChannelSet, elems(doc.ChannelSet), doc.ChannelSetHistory, elems(doc.ChannelSetHistory), ChannelSetEntry.Start, ChannelSetEntry.End, ChannelSetEntry.Compacted
 //@   ensures[map-kept]       old(doc.Channels) != nil ==> doc.Channels == old(doc.Channels)
 //@   ensures[keys]           forall c string :: {c in doc.Channels} (c in doc.Channels) <==> old(c in doc.Channels) || (c in newChannels)
 //@   ensures[active]         forall c string :: {chActive(doc.Channels, c)} chActive(doc.Channels, c) <==> (c in newChannels)
